@@ -177,6 +177,8 @@ def build_loss(case):
 def arrays(case):
     sim = np.array([[[unhex(x) for x in row] for row in mem] for mem in case["sim"]], dtype=float)
     real = np.array([[unhex(x) for x in row] for row in case["real"]], dtype=float)
+    if case.get("dtype") == "int64":   # integer-valued data handed over as integer arrays (counts, prices in cents, ...)
+        sim, real = sim.astype(np.int64), real.astype(np.int64)
     return sim, real
 
 
@@ -194,9 +196,11 @@ def run_impl(case):
                 # the value must equal the definition also when the SAME loss object was used before on other data
                 # (here: data with more coordinates, default weights): the earlier evaluation is discarded
                 r0 = np.random.default_rng(case.get("prior_seed", 0))     # data only; seed stored in the case
+                pn = case.get("prior_N") or sim.shape[1]   # ... possibly of another length
+                pt = pn if real.shape[0] == sim.shape[1] else real.shape[0]
                 with contextlib.suppress(Exception):
-                    loss.compute_loss(r0.uniform(0.5, 2.0, size=(sim.shape[0], sim.shape[1], case["prior_D"])),
-                                      r0.uniform(0.5, 2.0, size=(real.shape[0], case["prior_D"])))
+                    loss.compute_loss(r0.uniform(0.5, 2.0, size=(sim.shape[0], pn, case["prior_D"])),
+                                      r0.uniform(0.5, 2.0, size=(pt, case["prior_D"])))
             v = float(loss.compute_loss(sim, real))
             obs["value"] = fhex(v) if math.isfinite(v) else None
             obs["raw"] = repr(v)
@@ -702,8 +706,48 @@ def base_case(rng, loss, opts, nmin=3, nmax=32, T=None, force_filters=False, all
             "tag": f"{loss}", "shapes": shapes}
 
 
+def shift_level(rng, c, levels=(2**10, 2**17, 2**21)):
+    """Data far from the origin relative to their spread (an index around 100000, a timestamp): every value moved by the
+    same power of two, exactly representable together with the 2^-12 grid of the values."""
+    lv = float(rng.choice(list(levels)))
+    for key in ("sim", "real"):
+        def mv(x):
+            return [mv(y) for y in x] if isinstance(x, list) else fhex(unhex(x) + lv)
+        c[key] = mv(c[key])
+    c["tag"] += "/far-from-origin"
+    return c
+
+
+REAL_VALUED_FILTERS = ("user_square", "hp_cycle", "diff_log_demean", "log_hp")
+
+
+def gen_int_dtype(rng, nmax):
+    """Integer-typed arrays with a filter whose output is not integer-valued."""
+    loss = rng.choice(["minkowski", "fourier", "minkowski"])
+    opts = {"p": rng.choice([1, 2, 3])} if loss == "minkowski" else {"filter": rng.choice(["ideal", "gaussian"]), "f": rng.choice([0.5, 0.8, 1.0])}
+    E, Dd, N = rng.randint(1, 3), rng.randint(1, 3), rng.randint(4, min(nmax, 16))
+    filters = [rng.choice([None, *REAL_VALUED_FILTERS]) for _ in range(Dd)]
+    if all(f is None for f in filters):
+        filters[rng.below(Dd)] = rng.choice(REAL_VALUED_FILTERS)
+
+    def ser(n):
+        return [fhex(float(rng.randint(1, 9))) for _ in range(n)]
+    sim = [[[None] * Dd for _ in range(N)] for _ in range(E)]
+    real = [[None] * Dd for _ in range(N)]
+    for i in range(Dd):
+        for e in range(E):
+            for t, v in enumerate(ser(N)):
+                sim[e][t][i] = v
+        for t, v in enumerate(ser(N)):
+            real[t][i] = v
+    return {"loss": loss, "opts": opts, "sim": sim, "real": real, "weights": gen_weights(rng, Dd), "filters": filters,
+            "tag": f"{loss}/int64-data", "shapes": ["int"] * Dd, "dtype": "int64"}
+
+
 def gen_minkowski(rng, nmax):
     c = base_case(rng, "minkowski", {"p": rng.choice([1, 2, 3, 4])}, 3, nmax, force_filters=rng.below(3) == 0)
+    if c["filters"] is None and rng.below(4) == 0:
+        return shift_level(rng, c)
     if rng.below(8) == 0:   # sim mean equal to real: loss 0
         E = len(c["sim"])
         for e in range(E):
@@ -757,7 +801,8 @@ def gen_fourier(rng, nmax):
 
 def gen_gsl(rng, nmax):
     k = rng.below(10)
-    if k == 0:
+    if k <= 1:
+        k = 0
         opts = {"nb_values": None, "nb_word_lengths": None}
         nmin, nmx = 5, min(nmax, 38)
     else:
@@ -817,7 +862,18 @@ def gen_likelihood(rng, nmax):
     c["tag"] = "likelihood/" + (h if h in ("silverman", "scott") else "explicit")
     if c["weights"] is not None:
         c["tag"] += "/weights_ignored"
+    if c["filters"] is None and rng.below(3) == 0:
+        shift_level(rng, c)
     return c
+
+
+def gen_likelihood_far(rng, nmax):
+    """Kernel likelihood of data at a level of 1e5 - 2e6 with a spread of a few units: |x|^2 + |y|^2 - 2xy style
+    evaluations of the squared distances lose 7 - 10 digits there, the definition (differences first) loses none."""
+    while True:
+        c = gen_likelihood(rng, nmax)
+        if c["filters"] is None and "far-from-origin" not in c["tag"]:
+            return shift_level(rng, c, (2**17, 2**21))
 
 
 GENS = {"minkowski": gen_minkowski, "msm": gen_msm, "fourier": gen_fourier, "gsl": gen_gsl, "likelihood": gen_likelihood}
@@ -896,8 +952,15 @@ def run(chk, replay=None):
     skipped = Counter()
 
     def add(case, force=False):
-        if not force and case.get("weights") is None and case.get("filters") is None and "prior_D" not in case and rng.below(3) == 0:
-            case["prior_D"] = len(case["real"][0]) + rng.randint(1, 2)
+        free = case.get("weights") is None and case.get("filters") is None
+        gsl_default = case["loss"] == "gsl" and None in (case["opts"].get("nb_values"), case["opts"].get("nb_word_lengths"))
+        if not force and "prior_D" not in case and (gsl_default or rng.below(3) == 0):
+            # the same loss object evaluated before on other data: more coordinates when nothing ties the object to D,
+            # and (half of the time, always for length-dependent GSL defaults) series of another length
+            n0 = len(case["sim"][0])
+            case["prior_D"] = len(case["real"][0]) + (rng.randint(1, 2) if free and not gsl_default else 0)
+            if gsl_default or rng.below(2):
+                case["prior_N"] = rng.choice([n0 + 3, max(5, n0 - 2), 2 * n0, max(5, n0 // 2)])
             case["prior_seed"] = rng.below(2**31)
             case["tag"] = case.get("tag", "") + "+reused-object"
         obs = run_impl(case)
@@ -931,6 +994,10 @@ def run(chk, replay=None):
             c = gen_gsl_on_edge(rng)
             if c is not None:
                 add(c)
+        for _ in range(8 if quick else 60):
+            add(gen_int_dtype(rng, nmax))
+        for _ in range(4 if quick else 30):
+            add(gen_likelihood_far(rng, nmax))
 
     lits = [emit(c, o) for c, o in zip(cases, observations)]
     shard = 8 if chk.tier == "quick" else 12
